@@ -60,7 +60,7 @@ BIG_STORE = 7
 
 
 def bounds(tier):
-    return {'history_depth': 5 if tier == 'quick' else 6, 'body_goals': 3 if tier == 'quick' else 4,
+    return {'history_depth': 5 if tier == 'quick' else '6 on the stores [a,b] and [a,b,a]; 5 on the other stores and alphabets', 'body_goals': 3 if tier == 'quick' else 4,
             'state_search_depth': 0 if tier == 'quick' else 9}
 
 
@@ -289,10 +289,14 @@ def run_shard(spec):
     acc = Acc()
     if spec[0] == 'h':
         _, depth, k, n = spec
-        work = [(idx, hist, ii) for idx, hist in enumerate(histories(depth)) if idx % n == k for ii in range(4)]
-        work += [(10 ** 7 + idx, hist, 4) for idx, hist in enumerate(itertools.product(STRUCT_EVENTS, repeat=depth)) if idx % n == k]
-        work += [(2 * 10 ** 7 + idx, hist, 3) for idx, hist in enumerate(itertools.product(BOUND_EVENTS, repeat=depth)) if idx % n == k]
-        work += [(4 * 10 ** 7 + idx, hist, 3) for idx, hist in enumerate(itertools.product(EMPTY_EVENTS, repeat=depth + 1)) if idx % n == k]
+        # the deepest histories (thorough: 6 events) on the stores [a, b] and [a, b, a]; the other stores and
+        # alphabets one event shallower than that in the thorough tier (the quick tier is unchanged)
+        d2 = depth if depth <= 5 else depth - 1
+        work = [(idx, hist, ii) for idx, hist in enumerate(histories(depth)) if idx % n == k for ii in (2, 3)]
+        work += [(8 * 10 ** 7 + idx, hist, ii) for idx, hist in enumerate(histories(d2)) if idx % n == k for ii in (0, 1)]
+        work += [(10 ** 7 + idx, hist, 4) for idx, hist in enumerate(itertools.product(STRUCT_EVENTS, repeat=d2)) if idx % n == k]
+        work += [(2 * 10 ** 7 + idx, hist, 3) for idx, hist in enumerate(itertools.product(BOUND_EVENTS, repeat=d2)) if idx % n == k]
+        work += [(4 * 10 ** 7 + idx, hist, 3) for idx, hist in enumerate(itertools.product(EMPTY_EVENTS, repeat=d2 + 1)) if idx % n == k]
         # a store in which one fact is p(_): using it binds (a renamed copy of) its variable
         work += [(3 * 10 ** 7 + idx, hist, 5) for idx, hist in enumerate(itertools.product(EVENTS, repeat=depth - 1)) if idx % n == k]
         work += [(5 * 10 ** 7 + idx, hist, 6) for idx, hist in enumerate(itertools.product(EVENTS, repeat=depth - 1)) if idx % n == k]
